@@ -9,7 +9,7 @@ def run(unit, seed, outdir):
     path = os.path.join(outdir, unit + '.rs')
     cmd = ['verus', path, '--output-json', '--time', '--triggers-mode', 'silent', '--rlimit', '30', '--num-threads', '2',
            '--smt-option', 'smt.random_seed=%d' % seed, '--smt-option', 'sat.random_seed=%d' % seed]
-    p = subprocess.run(cmd, capture_output=True, text=True, cwd=outdir)
+    p = subprocess.run(cmd, capture_output=True, text=True, cwd=outdir, env=vcheck.cargo_env())
     try:
         d = json.loads(p.stdout)
     except Exception:
